@@ -48,7 +48,7 @@ def make_config(sock_path, policy_xml=None, limits=None, servicedirs=(), bus_typ
 
 
 class Daemon(object):
-    def __init__(self, build, rundir, config_text, name="bus", leaks=True, env=None, wrapper=(), extra_args=()):
+    def __init__(self, build, rundir, config_text, name="bus", leaks=True, env=None, wrapper=(), extra_args=(), print_address=False):
         self.build = build
         self.rundir = rundir
         os.makedirs(rundir, exist_ok=True)
@@ -73,8 +73,14 @@ class Daemon(object):
                 ctypes.CDLL("libc.so.6", use_errno=True).prctl(1, signal.SIGKILL, 0, 0, 0)    # PR_SET_PDEATHSIG
             except Exception:
                 pass
+        self.addrpath = os.path.join(rundir, name + ".addr")
+        out = subprocess.DEVNULL
+        if print_address:
+            # the bus writes its listening addresses (one line, ';'-separated) to its stdout
+            out = open(self.addrpath, "wb")
+            extra_args = list(extra_args) + ["--print-address=1"]
         self.proc = subprocess.Popen(list(wrapper) + [build.daemon, "--config-file=" + self.conf, "--nofork", "--nopidfile", "--nosyslog"] + list(extra_args),
-                                     stdin=subprocess.DEVNULL, stdout=subprocess.DEVNULL, stderr=self.errf, env=e,
+                                     stdin=subprocess.DEVNULL, stdout=out, stderr=self.errf, env=e,
                                      cwd=rundir, preexec_fn=_die_with_parent)
         self.pid = self.proc.pid
         self.stopped = False
@@ -90,6 +96,25 @@ class Daemon(object):
     @property
     def address(self):
         return "unix:path=" + self.sock
+
+    def addresses(self):
+        """the addresses the bus printed (needs print_address=True): list of (transport, {key: value})"""
+        deadline = time.time() + 5
+        text = ""
+        while time.time() < deadline:
+            try:
+                text = open(self.addrpath).read().strip()
+            except OSError:
+                text = ""
+            if text:
+                break
+            time.sleep(0.01)
+        out = []
+        for a in text.split(";"):
+            if ":" in a:
+                t, rest = a.split(":", 1)
+                out.append((t, dict(kv.split("=", 1) for kv in rest.split(",") if "=" in kv)))
+        return out
 
     def started(self):
         return os.path.exists(self.sock) and self.proc.poll() is None
